@@ -122,7 +122,10 @@ Definition has_psk_ids (e : ext) : bool :=
 Definition hrr_exts (group : N) (key cookie : bytes) (idx : nat) (es : list ext) : res (list ext) :=
   if existsb has_psk_ids es then Err E_PSK_HRR else                                  (* :397 *)
   if negb (existsb is_key_share es) then Err E_NO_KEYSHARE else                        (* :412 *)
-  let es1 := map (fun e => if is_key_share e then EKeyShare [(group, key)] else e) es in   (* :402-409 *)
+  (* :402-409 ks.KeyShares = hello.keyShares: the one fresh share when a group was selected (:350),
+     else the shares of the first flight *)
+  let es1 := if group =? 0 then es
+             else map (fun e => if is_key_share e then EKeyShare [(group, key)] else e) es in
   match cookie with
   | [] => Ok es1                                                                       (* :417 *)
   | _ =>
